@@ -109,6 +109,10 @@ def gen_cases(tier: str, seed: int) -> list[dict]:
     for nk in (2, 3, 4):
         for w in (0, 2):
             cases.append({"payload": "small", "nkeys": nk, "workers": w, "fp": {"kind": "same_process"}})
+    # results that are false in a boolean context (None, 0, "", [], False, 0.0, {}) are results
+    for w in (0, 2):
+        cases.append({"payload": "falsy", "nkeys": 8, "workers": w, "fp": {"kind": "none"}})
+    cases.append({"payload": "falsy", "nkeys": 8, "workers": 0, "fp": {"kind": "subset", "subset": [0, 3, 5]}})
     for kt in ("float_fine_steps", "float_large", "numpy_float", "int", "tuple", "negative_and_small"):
         for w in (0, 2):
             cases.append({"payload": f"keys:{kt}", "nkeys": 4, "workers": w, "fp": {"kind": "none"}})
@@ -141,8 +145,8 @@ def run_workload(payload: str, nkeys: int, cache_dir: str | None, workers: int, 
 
     cache = None if cache_dir is None else Cache(tmp_dir=__import__("pathlib").Path(cache_dir))
     idx = list(range(nkeys)) if only is None else list(only)
-    if payload in ("small", "medium", "small_alt"):
-        fn = {"small": cachefn.small, "medium": cachefn.medium, "small_alt": cachefn.small_alt}[payload]
+    if payload in ("small", "medium", "small_alt", "falsy"):
+        fn = {"small": cachefn.small, "medium": cachefn.medium, "small_alt": cachefn.small_alt, "falsy": cachefn.falsy}[payload]
         res = parallelise(fn, [(f"k{i}", i + 2) for i in idx], cache=cache, parallel=workers > 0,
                           max_workers=workers or None, disable_tqdm=True)
         return [(k, v) for k, v in res]
@@ -302,7 +306,7 @@ def run_case(case: dict) -> dict:
                 counters["third_run_checked"] = 1
             if fp["kind"] == "subset":
                 redone = sorted(calls_after_2[len(calls_after_1):])
-                want = sorted(str(i + 2) for i in range(nkeys) if i not in fp["subset"]) if payload in ("small", "medium") or payload.startswith("keys:") else None
+                want = sorted(str(i + 2) for i in range(nkeys) if i not in fp["subset"]) if payload in ("small", "medium", "falsy") or payload.startswith("keys:") else None
                 if want is not None and redone != want:
                     viols.append(core.viol("rerun over a partially filled cache did not compute exactly the missing keys", None, case=ident, computed=redone, missing=want))
                 counters["partial_cache_reruns"] = 1
